@@ -29,7 +29,7 @@ RULE = ("expressions from the C10 generator (70% well-scoped, 30% wild: multi-wo
         "name, or a fraction, or a sum that simplifies, and the canonical form differs from the input.")
 ASSUMPTIONS = [
     "hash seeds / construction order is a Python-runtime clause (R): decided by running fresh interpreters under several PYTHONHASHSEEDs, not by a theorem (the model represents sets as sorted lists)",
-    "canon_idem is proved for WellScoped expressions (the quantifier of C10) under the orderings canonicalize builds (re-sorted by name); OPEN: canon_idem_all for expressions outside WellScoped (several worlds in one leaf, repeated names) - there idempotence rests on correspondence + the direct oracle (30% wild expressions, canonicalised twice on the real code every run)",
+    "canon_idem is proved for ALL expressions under the orderings canonicalize builds (an explicit ordering is re-sorted by variable name: the hypothesis NameMonotone, shown necessary by a counterexample); the second call with ordering=None recomputes the ordering from the canonical form, which the theorem does not cover (the harness passes the ordering explicitly)",
     "canon_perm and key_total hold for ALL expressions and orderings; canon_perm is stated one-directionally (a canonical form of e is the canonical form of every presentation e' of e); when canonicalize raises on e nothing is claimed",
     "the Lean theorems are about the hand-written model Y0.Model.Canon/Dsl of the code after the fix commits; the tie to the Python is this run's correspondence check (sampling)",
     "cases where canonicalize raises on both presentations (uncovered name, Q-factor, zero denominator) are outside the property",
@@ -291,8 +291,7 @@ MANIFEST = {
              "canon_perm - expressions that differ by factor order, product nesting or children/parents order at any depth "
              "have identical canonical forms under every ordering (all expressions); canon_idem - canonicalising a canonical "
              "form returns it unchanged, via a syntactic characterisation of canonical forms (IsCanon) that the canonicaliser "
-             "produces and fixes, for well-scoped expressions under the orderings canonicalize builds (OPEN: expressions with "
-             "several worlds / repeated names in one leaf, covered by correspondence + oracle only). Hash-seed / construction-"
+             "produces and fixes, for all expressions under the (name-sorted) orderings canonicalize builds. Hash-seed / construction-"
              "order independence is a runtime clause decided on every run by canonicalising batches in fresh interpreters "
              "under several PYTHONHASHSEEDs."),
     "note": ("Trusted: Lean kernel; the hand-written model tied to the code by differential sampling; Python's sorted() is "
